@@ -688,3 +688,62 @@ def r_event_locked(e, R):
             R.check(okw, "R-EVENT-LOCKED", "Event.wait: blocks on the condition exactly when the first probe finds the event clear", m.short, "if probe: release else: cond.wait(timeout)",
                     "Event.wait sleeps although the event is set (until the timeout / forever), or returns at once although it is clear", e.loc(m, m.node))
     R.floor("R-EVENT-LOCKED", 19)
+
+
+# ---------------------------------------------------------------------------
+# R-AFTER-FORK (C14, C05): hooks registered with multiprocessing.util.register_after_fork
+# ---------------------------------------------------------------------------
+
+def _stdlib_after_fork_call():
+    """How the stdlib invokes a registered hook, read from the interpreter's own multiprocessing/util.py (not imported):
+    (number of positional arguments, exceptions are swallowed?)."""
+    import importlib.util as iu
+    spec = iu.find_spec("multiprocessing.util")
+    with open(spec.origin, encoding="utf-8") as fh:
+        tree = ast.parse(fh.read())
+    for fn in [n for n in tree.body if isinstance(n, ast.FunctionDef) and n.name == "_run_after_forkers"]:
+        for tr in [n for n in ast.walk(fn) if isinstance(n, ast.Try)]:
+            calls = [c for s in tr.body for c in ast.walk(s) if isinstance(c, ast.Call) and isinstance(c.func, ast.Name) and c.func.id == "func"]
+            if calls:
+                swallowed = any(h.type is None or norm(h.type) in ("Exception", "BaseException") for h in tr.handlers) \
+                    and not any(isinstance(x, ast.Raise) for h in tr.handlers for x in ast.walk(h))
+                return len(calls[0].args), swallowed, spec.origin
+    raise AnalysisError("stdlib: multiprocessing.util._run_after_forkers does not call func(obj) in a try block any more")
+
+
+def r_after_fork(e, R):
+    """The after-fork hooks loky registers are invoked by the stdlib as `func(obj)` with every exception swallowed (logged at
+    INFO only): a hook of another arity silently never runs.  Each hook must be a loky function of exactly one positional
+    parameter; SemLock's resets the per-process ownership state of the semaphore of the object it receives; the registry of
+    manager wake-ups is emptied in the child."""
+    nargs, swallowed, origin = _stdlib_after_fork_call()
+    R.trust(f"stdlib: _run_after_forkers calls func(obj) with {nargs} argument(s), exceptions swallowed={swallowed} (read from {origin})")
+    sites = [(f, c) for f, c in e.all_calls() if (isinstance(c.func, ast.Attribute) and c.func.attr == "register_after_fork")
+             or (isinstance(c.func, ast.Name) and c.func.id == "register_after_fork")]
+    for f, c in sites:
+        if len(c.args) != 2:
+            R.fail("R-AFTER-FORK", f.short, norm(c)[:80], "register_after_fork is not called with (object, hook)", e.loc(f, c))
+            continue
+        hooks = {v[1] for v in e.pt.ev(f, c.args[1]) if v[0] == "func"}
+        hfs = [e.prog.funcs[q] for q in hooks if q in e.prog.funcs]
+        ok = bool(hfs) and len(hfs) == len(e.pt.ev(f, c.args[1])) and all(
+            len(h.params) - len([p for p in h.params if p in h.defaults]) <= nargs <= len(h.params) or h.vararg for h in hfs)
+        # a bound method of a loky object takes `self` implicitly
+        ok = ok and not any(h.cls is not None and isinstance(c.args[1], ast.Attribute) for h in hfs)
+        R.check(ok, "R-AFTER-FORK", f"{f.short}: the after-fork hook `{norm(c.args[1])[:40]}` is a function of one argument (the stdlib calls func(obj))", f.short,
+                norm(c)[:90], f"the hook `{norm(c.args[1])}` registered for after-fork is not a loky function taking exactly the registered object: the stdlib calls "
+                "`func(obj)` and swallows the TypeError, so the hook silently never runs in a forked child (a primitive held by the parent at fork time stays "
+                "'owned' in the child: an RLock is re-entered by another process, Condition.notify passes its ownership assertion)", e.loc(f, c))
+        for h in hfs if ok else ():
+            p0 = h.params[0]
+            body_calls = [x for x in func_nodes(h) if isinstance(x, ast.Call) and isinstance(x.func, ast.Attribute)]
+            if f.cls is not None and f.cls.qualname == f"{SY}:SemLock":
+                okb = any(x.func.attr == "_after_fork" and norm(x.func.value) == f"{p0}._semlock" and not x.args for x in body_calls) and norm(c.args[0]) == f.params[0]
+                R.check(okb, "R-AFTER-FORK", "SemLock: the hook resets the ownership state of the semaphore of the object it is given", h.short,
+                        f"{p0}._semlock._after_fork()", "the after-fork hook does not reset the inherited recursion count / owner of the forked copy", e.loc(h, h.node))
+            else:
+                okb = any(x.func.attr == "clear" and norm(x.func.value) == p0 and not x.args for x in body_calls)
+                R.check(okb, "R-AFTER-FORK", f"{f.short}: the hook empties the registry it is given in the forked child", h.short, f"{p0}.clear()",
+                        "a forked child keeps the parent's manager threads / wake-up pipes registered: its at-exit hook wakes and joins threads that do not exist there",
+                        e.loc(h, h.node))
+    R.floor("R-AFTER-FORK", 4)
